@@ -457,4 +457,8 @@ func Corpus(thorough bool, yield func(Program)) {
 	F5(yield)
 	F6(yield)
 	C02(thorough, yield)
+	F8(false, yield)
+	if thorough {
+		F8(true, yield)
+	}
 }
